@@ -4,7 +4,7 @@ number of consumers.
 
 * `read_task` — `RSt`/`rstep`: `dl_state`, `awaiting_linked`, `awaiting_synced`, `registered`, `current`,
   `sync_event`, `SINGLE_FRAME_STATE` (`sync_current` vs `sync_only`), `is_active` (the "no consumers" timeout is
-  armed ⇔ `task_state` is `Some`), removal of consumers whose channel failed, `unlink` of everybody on exit.
+  armed ⇔ `task_state` is `Some`; armed only when all three lists are empty), removal of consumers whose channel failed, `unlink` of everybody on exit.
   One `REv` = one iteration of the task's loop *including* the flush that the next iteration starts with
   (in lock-step the flush has always run before the next event is taken, see NOTES-C07.md).
 * `write_task` — `WSt`/`wmicro`/`winput`: `send_link` before the loop, `Idle`/`Writing` × {`FLUSHED`,
@@ -52,12 +52,11 @@ inductive Note
 inductive Dl | init | linked | synced
   deriving DecidableEq, Repr
 
-/-- A consumer (`DownlinkSender`): `late` is a ghost flag (attached when `dl_state ≠ Init`). -/
+/-- A consumer (`DownlinkSender`). -/
 structure Consumer where
   id : Nat
   sync : Bool            -- `options.contains(SYNC)`
   keep : Bool            -- `options.contains(KEEP_LINKED)` (the result of `unlink` is discarded: no effect)
-  late : Bool := false
   deriving DecidableEq, Repr
 
 /-- `Notification` from the remote lane; `badEvent` = an event whose body the interpretation rejects. -/
@@ -106,10 +105,12 @@ def unlinkAll (s : RSt) : RSt × List (Nat × Note) :=
 /-- `ReadTaskEvent::NewConsumer`. -/
 def onAttach (s : RSt) (c : Consumer) : RSt × List (Nat × Note) :=
   match s.dl with
-  | .init => ({ s with aLinked := s.aLinked ++ [{ c with late := false }], timer := false }, [])
+  | .init => ({ s with aLinked := s.aLinked ++ [c], timer := false }, [])
   | _ =>
+    -- `send(Linked)` at once; then awaiting `synced` only if it asked for it (7d3b0a2), else registered
     if s.alive c then
-      ({ s with aSynced := s.aSynced ++ [{ c with late := true }], timer := false }, [(c.id, .linked)])
+      if c.sync then ({ s with aSynced := s.aSynced ++ [c], timer := false }, [(c.id, .linked)])
+      else ({ s with reg := s.reg ++ [c], timer := false }, [(c.id, .linked)])
     else (s, [])
 
 /-- `Notification::Linked`: `link(..)` if active. -/
@@ -128,7 +129,7 @@ def onSynced (s : RSt) : RSt × List (Nat × Note) :=
   if s.timer then ({ s with dl := .synced }, [])
   else
     ({ s with dl := .synced, aSynced := [], reg := s.reg ++ s.aSynced.filter s.alive,
-              timer := (s.reg ++ s.aSynced.filter s.alive).isEmpty },
+              timer := (s.reg ++ s.aSynced.filter s.alive).isEmpty && s.aLinked.isEmpty },
      notesTo (s.aSynced.filter s.alive)
        (if s.single && s.syncEvent then [.event s.current, .synced] else [.synced]))
 
@@ -140,7 +141,8 @@ def dispatch (s : RSt) : RSt × List (Nat × Note) :=
     ({ s with reg := s.reg.filter s.alive,
               aSynced := if s.single then s.aSynced else s.aSynced.filter s.alive,
               timer := (s.reg.filter s.alive).isEmpty
-                        && (if s.single then s.aSynced else s.aSynced.filter s.alive).isEmpty },
+                        && (if s.single then s.aSynced else s.aSynced.filter s.alive).isEmpty
+                        && s.aLinked.isEmpty },
      notesTo (s.reg.filter s.alive) [.event s.current]
        ++ (if s.single then [] else notesTo (s.aSynced.filter s.alive) [.event s.current]))
 
@@ -150,9 +152,9 @@ def onMsg (s : RSt) : RMsg → RSt × List (Nat × Note)
   | .unlinked => unlinkAll s
   | .event b => dispatch { s with syncEvent := true, current := b }
   | .badEvent =>
-    -- `current.clear()`, the interpretation fails: abort, or carry on with the cleared buffer
+    -- `current.clear()`, the interpretation fails: abort, or ignore the frame (`continue`, 47607a1)
     if s.abort then unlinkAll { s with syncEvent := true, current := .raw [] }
-    else dispatch { s with syncEvent := true, current := .raw [] }
+    else ({ s with syncEvent := true, current := .raw [] }, [])
 
 def rstep (s : RSt) : REv → RSt × List (Nat × Note)
   | .dropReader c => ({ s with dead := c :: s.dead }, [])
